@@ -33,11 +33,17 @@ def signal():
 _REF = {}
 
 
+def call_opts():
+    """fresh nested option dictionaries for every call, with floats that have many significant digits (anything that re-formats,
+    rounds or caches option values on the logging path changes the result)"""
+    return dict(imf_opts={'env_step_size': 0.987654321, 'sd_thresh': 0.123456789}, extrema_opts={'pad_width': 2, 'parabolic_extrema': False})
+
+
 def reference():
     if 'sift' not in _REF:
         import emd
-        _REF['sift'] = emd.sift.sift(signal()).tobytes()
-        _REF['mask_sift'] = emd.sift.mask_sift(signal(), max_imfs=2, mask_freqs=0.25).tobytes()
+        _REF['sift'] = emd.sift.sift(signal(), **call_opts()).tobytes()
+        _REF['mask_sift'] = emd.sift.mask_sift(signal(), max_imfs=2, mask_freqs=0.25, **call_opts()).tobytes()
     return _REF
 
 
@@ -85,9 +91,12 @@ def run_history_here(codes, workdir, variant='sift'):
             verbose = NAMES[a] if a else None
             f = getattr(emd.sift, variant)
             kw = dict(max_imfs=2, mask_freqs=0.25) if variant == 'mask_sift' else {}
+            opts = call_opts()
             try:
-                out = f(bad if b else x, verbose=verbose, **kw)
+                out = f(bad if b else x, verbose=verbose, **kw, **opts)
                 seen = 1 if out.tobytes() == ref[variant] else 4
+                if opts != call_opts():
+                    seen = 5
             except ValueError:
                 seen = 2
             except Exception:
@@ -147,7 +156,8 @@ def oracle(codes, tr, reals=None):
                 fails.append((site, '%s: console level was %s before the call and is %s after it' % (what, prev, lv)))
             if b == 0 and seen != 1:
                 site = 'wrap_verbose(before set_up)' if prev == -1 else 'wrap_verbose'
-                fails.append((site, '%s: %s' % (what, {4: 'result differs from the reference result',
+                fails.append((site, '%s: %s' % (what, {4: 'result differs from the reference result (same call in a never-set-up process)',
+                                                      5: 'the option dictionaries handed to the call were modified by it',
                                                       3: 'raised an unrelated error and the result was lost',
                                                       2: 'raised ValueError'}.get(seen, seen))))
             if b == 1 and seen != 2:
@@ -175,7 +185,7 @@ def _worker(job):
 def run(ctx):
     depth = 3 if ctx.quick() else 4
     ctx.rule = ('every history of length 1..%d over a 23-op alphabet {set_up(level in None/CRITICAL/WARNING/INFO/DEBUG, with/without '
-                'log file), set_level x4, disable, enable, sift(verbose in None+4 levels) returning / raising}, each in a freshly '
+                'log file), set_level x4, disable, enable, sift(verbose in None+4 levels, nested option dictionaries with 9-digit floats, fresh per call) returning / raising}, each in a freshly '
                 'forked never-set-up process (so both the never-set-up and the set-up state are starting points); plus random '
                 'histories up to length 12 incl. mask_sift; observed: get_level(), the level of the console handler read from the logging module itself, and the call outcome after every step; '
                 'non-trivial = contains a call with a verbosity override' % depth)
